@@ -478,3 +478,30 @@ Print Assumptions C18_translated_ffbuffer_init.
 Theorem C18_translated_buffer_invert p : IoGen.g_buffer_invert p = inv_mask (p_inv p).
 Proof. exact (GenEqIo.gen_buffer_invert_eq p). Qed.
 Print Assumptions C18_translated_buffer_invert.
+
+(* Buffer.elaborate regenerated by symbolic execution of the source (IoGen.g_buffer_elab): the IOBufferInstance
+   cells + i connection for SingleEndedPort / DifferentialPort, and the settled comb function for a SimulationPort *)
+Theorem C18_translated_buffer_cells bd p o oe st :
+  GenEqIo.g_cells_of p (IoGen.g_buffer_elab bd p o oe st) = buffer_cells bd p.
+Proof. exact (GenEqIo.gen_buffer_cells_eq bd p o oe st). Qed.
+Print Assumptions C18_translated_buffer_cells.
+
+Theorem C18_translated_buffer_comb bd p o oe st :
+  p_kind p = KSim -> IoGen.ge_sem (IoGen.g_buffer_elab bd p o oe st) = Some (buffer_comb bd p o oe st).
+Proof. exact (GenEqIo.gen_buffer_comb_eq bd p o oe st). Qed.
+Print Assumptions C18_translated_buffer_comb.
+
+(* FFBuffer.elaborate regenerated by symbolic execution (IoGen.g_ff_edge / g_ff_sync): which edge registers what
+   (inner Buffer = the regenerated g_buffer_elab), and one register stage per direction in the stored domains *)
+Theorem C18_translated_ff_edge bd p ei eo o oe st s :
+  p_kind p = KSim ->
+  IoGen.g_ff_edge bd p ei eo o oe st s = (ff_edge bd p ei eo o oe st s, if dir_eqb bd DOut then 0 else f_i s).
+Proof. exact (GenEqIo.gen_ff_edge_eq bd p ei eo o oe st s). Qed.
+Print Assumptions C18_translated_ff_edge.
+
+Theorem C18_translated_ff_regs bd idom odom r :
+  ff_domains bd idom odom = Ok r ->
+  GenEqIo.g_regs_of (IoGen.g_ff_sync bd r) = ff_regs r /\
+  GenEqIo.g_stages IoGen.Gf_oe (IoGen.g_ff_sync bd r) = GenEqIo.g_stages IoGen.Gf_o (IoGen.g_ff_sync bd r).
+Proof. exact (GenEqIo.gen_ff_regs_eq bd idom odom r). Qed.
+Print Assumptions C18_translated_ff_regs.
